@@ -85,6 +85,7 @@ theorem un_scalar (cG cB : Cfg) (hG : cG.gen = true) :
     | map k kt vt => cases x <;> simp_all [wellTyped, isScalar]
     | cls c => cases x <;> simp_all [wellTyped, isScalar]
     | td c => cases x <;> simp_all [wellTyped, isScalar]
+    | nt c => cases x <;> simp_all [wellTyped, isScalar]
     | union ucs hn =>
       have : un w cG (.union ucs hn) x = unAny w cG x := by simp only [un]
       rw [this]; exact unAny_scalar w cG cB hx
